@@ -12,6 +12,7 @@
   for the whole `calculate` (glue through `taxTotal`) is exercised only.
 -/
 import GoblVerif.Spec.C02
+import GoblVerif.Generated.CalcFacts
 import GoblVerif.Proofs.CalcTax
 import GoblVerif.Proofs.CalcGroups
 
@@ -149,5 +150,65 @@ example :
         { total := ⟨700, 4⟩, taxes := [{ cat := "VAT", country := "", key := "", percent := some ⟨⟨10, 2⟩⟩, surcharge := none, ext := "", retained := false }] },
         { total := ⟨300, 4⟩, taxes := [{ cat := "VAT", country := "", key := "", percent := none, surcharge := none, ext := "", retained := false }] } ]).map
       (fun ct => ct.rates.map (·.base)) = [[⟨15000, 4⟩, ⟨700, 4⟩, ⟨300, 4⟩]] := by decide
+
+/-! ## pinned source shapes (regenerated facts; tools/pin_calc_expect.py) -/
+
+namespace ExpectCalc
+open GoblVerif.Generated.Calc
+
+theorem calls_TotalCalculator_Calculate_as_modelled : calls_TotalCalculator_Calculate =
+    ["Zero", "Def", "make", "mapTaxLines", "prepareLines", "removeIncludedTaxes", "calculateBaseRateTotals", "Calculate"] := by decide
+theorem conds_TotalCalculator_Calculate_as_modelled : conds_TotalCalculator_Calculate =
+    ["err := tc.prepareLines(taxLines); err != nil", "err := tc.removeIncludedTaxes(taxLines); err != nil"] := by decide
+theorem calls_TotalCalculator_prepareLines_as_modelled : calls_TotalCalculator_prepareLines =
+    ["calculate", "RescaleUp", "Exp"] := by decide
+theorem conds_TotalCalculator_prepareLines_as_modelled : conds_TotalCalculator_prepareLines =
+    ["err := combo.calculate(tc.Country, tc.Tags, tc.Date); err != nil"] := by decide
+theorem calls_TotalCalculator_removeIncludedTaxes_as_modelled : calls_TotalCalculator_removeIncludedTaxes =
+    ["IsEmpty", "Get", "WithMessage", "String", "Remove"] := by decide
+theorem conds_TotalCalculator_removeIncludedTaxes_as_modelled : conds_TotalCalculator_removeIncludedTaxes =
+    ["tc.Includes.IsEmpty()", "c := tl.taxes.Get(tc.Includes); c != nil", "c.retained", "c.Percent == nil"] := by decide
+theorem calls_TotalCalculator_calculateBaseRateTotals_as_modelled : calls_TotalCalculator_calculateBaseRateTotals =
+    ["rateTotalFor", "matchRoundingPrecision", "Add"] := by decide
+theorem conds_TotalCalculator_calculateBaseRateTotals_as_modelled : conds_TotalCalculator_calculateBaseRateTotals =
+    [] := by decide
+theorem calls_Total_rateTotalFor_as_modelled : calls_Total_rateTotalFor =
+    ["newCategoryTotal", "append", "matches", "newRateTotal", "append"] := by decide
+theorem conds_Total_rateTotalFor_as_modelled : conds_Total_rateTotalFor =
+    ["ct.Code == c.Category", "catTotal == nil", "rt.matches(c)", "rateTotal == nil"] := by decide
+theorem calls_newRateTotal_as_modelled : calls_newRateTotal =
+    ["new"] := by decide
+theorem conds_newRateTotal_as_modelled : conds_newRateTotal =
+    ["c.Percent != nil", "c.Surcharge != nil"] := by decide
+theorem calls_newCategoryTotal_as_modelled : calls_newCategoryTotal =
+    ["new", "make"] := by decide
+theorem conds_newCategoryTotal_as_modelled : conds_newCategoryTotal =
+    [] := by decide
+theorem calls_RateTotal_matches_as_modelled : calls_RateTotal_matches =
+    ["Equals", "Equals", "Equals"] := by decide
+theorem conds_RateTotal_matches_as_modelled : conds_RateTotal_matches =
+    ["!rt.Ext.Equals(c.Ext)", "rt.Country != c.Country", "rt.Percent == nil || c.Percent == nil", "rt.Surcharge != nil || c.Surcharge != nil", "rt.Surcharge == nil || c.Surcharge == nil", "!rt.Surcharge.Percent.Equals(*c.Surcharge)"] := by decide
+theorem calls_Total_Calculate_as_modelled : calls_Total_Calculate =
+    ["Zero", "Def", "calculateFinalSum", "round"] := by decide
+theorem conds_Total_Calculate_as_modelled : conds_Total_Calculate =
+    ["t == nil"] := by decide
+theorem calls_Total_calculateBaseCategoryTotal_as_modelled : calls_Total_calculateBaseCategoryTotal =
+    ["Of", "matchRoundingPrecision", "Add", "Of", "matchRoundingPrecision", "Add"] := by decide
+theorem conds_Total_calculateBaseCategoryTotal_as_modelled : conds_Total_calculateBaseCategoryTotal =
+    ["rt.Percent == nil", "rt.Surcharge != nil", "ct.Surcharge == nil"] := by decide
+theorem calls_Total_calculateFinalSum_as_modelled : calls_Total_calculateFinalSum =
+    ["calculateBaseCategoryTotal", "matchRoundingPrecision", "Subtract", "Subtract", "Add", "Add"] := by decide
+theorem conds_Total_calculateFinalSum_as_modelled : conds_Total_calculateFinalSum =
+    ["ct.Retained", "ct.Surcharge != nil", "ct.Surcharge != nil"] := by decide
+theorem calls_matchRoundingPrecision_as_modelled : calls_matchRoundingPrecision =
+    ["MatchPrecision"] := by decide
+theorem conds_matchRoundingPrecision_as_modelled : conds_matchRoundingPrecision =
+    [] := by decide
+theorem calls_Amount_Remove_as_modelled : calls_Amount_Remove =
+    ["Divide", "Factor"] := by decide
+theorem conds_Amount_Remove_as_modelled : conds_Amount_Remove =
+    [] := by decide
+
+end ExpectCalc
 
 end GoblVerif.Props.C02
